@@ -2,6 +2,9 @@
 
   ./check X01     EnvSpecView.tla  (EnvSpec.markers / as_dict / from_spec / Implementation.parse, coherent with the
                   wheel view of C08)        MC + B1: every dumped view is replayed on the real EnvSpec
+  ./check X02     marker grammar acceptance (the sibling of C17 for markers; exploration): generated marker texts under 15
+                  named mutations; parse_marker accepts what packaging accepts and raises InvalidMarker, and nothing else,
+                  on what packaging rejects
 
 These are NOT registered in MANIFEST.json (the property list is fixed); they print `DRIFT extra=<id> ...` and exit 1
 when the code leaves the specification, and write evidence-extra/<id>.json.  Nothing here can raise a VIOLATION.
@@ -149,9 +152,79 @@ def run_x01(tier: str):
     return cov, drift
 
 
+# --------------------------------------------------------------------------- X02: marker grammar acceptance
+MARKER_MUTATIONS = [
+    ("drop-quote", lambda t, r: t.replace('"', "", 1)),
+    ("bad-operator", lambda t, r: t.replace("==", "=>", 1) if "==" in t else t.replace(">=", "=>", 1) if ">=" in t else t + " =>"),
+    ("unknown-variable", lambda t, r: t.replace("os_name", "os_nam").replace("sys_platform", "sys_platfrom").replace("python_version", "pythonversion") if any(v in t for v in ("os_name", "sys_platform", "python_version")) else "nonesuch == \"x\" and " + t),
+    ("dangling-and", lambda t, r: t + " and"),
+    ("dangling-or", lambda t, r: "or " + t),
+    ("unbalanced-open", lambda t, r: "(" + t),
+    ("unbalanced-close", lambda t, r: t + ")"),
+    ("double-connective", lambda t, r: t.replace(" and ", " and and ", 1) if " and " in t else t.replace(" or ", " or or ", 1) if " or " in t else t + " and or " + t),
+    ("empty-token-inside", lambda t, r: t + " and <empty>"),
+    ("two-literals", lambda t, r: '"a" == "b" and ' + t),
+    ("two-variables", lambda t, r: "os_name == sys_platform and " + t),
+    ("trailing-garbage", lambda t, r: t + " ;"),
+    ("single-quotes", lambda t, r: t.replace('"', "'")),               # valid: PEP 508 allows both
+    ("extra-parens", lambda t, r: "((" + t + "))"),                       # valid
+    ("no-spaces", lambda t, r: t.replace(' == "', '=="').replace(' != "', '!="')),   # valid
+]
+
+
+def _x02_chunk(seeds):
+    import random
+
+    from packaging.markers import InvalidMarker as PkgInvalid
+    from packaging.markers import Marker as PkgMarker
+
+    from dep_logic.markers import InvalidMarker, parse_marker
+
+    from . import drive_marker
+    drift, n, rejected = [], 0, 0
+    for seed in seeds:
+        rng = random.Random(seed)
+        base = drive_marker.gen_marker(rng, drive_marker.pick_vars(rng), rng.choice([0, 1, 1, 2]))
+        name, mut = MARKER_MUTATIONS[seed % len(MARKER_MUTATIONS)]
+        text = mut(base, rng)
+        try:
+            PkgMarker(text)
+            ok = True
+        except PkgInvalid:
+            ok = False
+        except Exception:  # noqa: BLE001
+            continue
+        n += 1
+        val, exc = drive_marker.timed(parse_marker, text)
+        if exc == "Timeout":
+            continue
+        if ok:
+            if exc:
+                drift.append((f"X02:parse_marker({name}):raises-{exc}-on-valid", f"{text!r} is accepted by packaging", {"text": text}))
+        else:
+            rejected += 1
+            if not exc:
+                drift.append((f"X02:parse_marker({name}):accepts-invalid", f"{text!r} -> {val!s}; packaging rejects it", {"text": text}))
+            elif exc != InvalidMarker.__name__:
+                drift.append((f"X02:parse_marker({name}):raises-{exc}-instead-of-InvalidMarker", f"{text!r}", {"text": text}))
+    return n, drift, rejected
+
+
+def run_x02(tier: str):
+    seeds = [seed_from_env() * 9973 + i for i in range(30000 if tier == "thorough" else 6000)]
+    total = rej = 0
+    drift: list = []
+    with mp.Pool(16) as pool:
+        for n, dr, rj in pool.map(_x02_chunk, _split(seeds)):
+            total += n
+            rej += rj
+            drift += dr
+    return {"strings": total, "rejected_by_packaging": rej, "mutations": [m for m, _ in MARKER_MUTATIONS], "traces_validated_against_impl": total}, drift
+
+
 def run(pid: str, tier: str, replay: str | None = None) -> int:
     t0 = time.time()
-    cov, drift = {"X01": run_x01}[pid](tier)
+    cov, drift = {"X01": run_x01, "X02": run_x02}[pid](tier)
     os.makedirs(OUT, exist_ok=True)
     first: dict[str, tuple] = {}
     for sig, detail, ctx in drift:
